@@ -142,7 +142,8 @@ pub enum Op {
     /// via: 0 entry(k); 1 raw from_key; 2 raw from_key_hashed_nocheck; 3 raw from_hash
     Entry { via: u8, k: u64, steps: Vec<Step> },
     /// extend with (k, v) pairs; variant 0 owned pairs, 1 from_iter into a fresh map (mid = new map)
-    Extend { items: Vec<(u64, u64)> },
+    /// `hint`: what the iterator's `size_hint().0` claims (`None`: the truth; `size_hint` is advisory, safe code may lie)
+    Extend { items: Vec<(u64, u64)>, hint: Option<usize> },
     /// consume the map with into_iter, pull `take`, drop the rest
     IntoIter { take: usize },
     /// C04's wording, executed on the map itself: insert capacity()-len() unseen keys `start..`
@@ -200,9 +201,10 @@ pub fn fmt_op(mid: usize, op: &Op) -> String {
             "entry {mid} {via} {k} {}",
             if steps.is_empty() { "-".to_string() } else { steps.iter().map(|s| s.fmt()).collect::<Vec<_>>().join(";") }
         ),
-        Op::Extend { items } => format!(
-            "extend {mid} {}",
-            if items.is_empty() { "-".to_string() } else { items.iter().map(|(k, v)| format!("{k}:{v}")).collect::<Vec<_>>().join(",") }
+        Op::Extend { items, hint } => format!(
+            "extend {mid} {} {}",
+            if items.is_empty() { "-".to_string() } else { items.iter().map(|(k, v)| format!("{k}:{v}")).collect::<Vec<_>>().join(",") },
+            hint.map_or("-".to_string(), |h| h.to_string())
         ),
         Op::IntoIter { take } => format!("intoiter {mid} {take}"),
         Op::FillProbe { start } => format!("fillprobe {mid} {start}"),
@@ -258,7 +260,7 @@ pub fn parse_op(line: &str) -> Option<Line> {
                     })
                     .collect::<Option<Vec<_>>>()?
             };
-            Op::Extend { items }
+            Op::Extend { items, hint: t.get(3).and_then(|x| x.parse().ok()) }
         }
         "intoiter" => Op::IntoIter { take: z(2)? },
         "fillprobe" => Op::FillProbe { start: u(2)? },
@@ -1218,15 +1220,27 @@ impl World {
                 ret = rv;
                 returned = rets;
             }
-            Op::Extend { items } => {
+            Op::Extend { items, hint } => {
                 let pairs: Vec<(Key, Val)> = items.iter().map(|(k, v)| (Key::new(*k), Val::new(*v))).collect();
                 let desc: Vec<String> = pairs.iter().map(|(k, v)| format!("{}:{}:{}:{}", k.k(), k.id, v.v, v.id)).collect();
-                head = format!("extend {mid} {}", if desc.is_empty() { "-".into() } else { desc.join(",") });
+                let claimed = hint.unwrap_or(pairs.len());
+                head = format!("extend {mid} {} {claimed}", if desc.is_empty() { "-".into() } else { desc.join(",") });
                 let ids: Vec<(u64, u64, u64, u64)> = pairs.iter().map(|(k, v)| (k.k(), k.id, v.v, v.id)).collect();
                 // does a pair overwrite a key that is already there?  (see the transcript rule for `extend` below)
-                extend_overwrites = ids.iter().any(|x| self.refs[mid].as_ref().unwrap().contains_key(&x.0));
+                extend_overwrites = ids.iter().any(|x| self.refs[mid].as_ref().unwrap().contains_key(&x.0))
+                    || ids.iter().enumerate().any(|(i, x)| ids[..i].iter().any(|y| y.0 == x.0));
                 let m = self.maps[mid].as_mut().unwrap();
-                let cr = windowed(|| m.extend(pairs));
+                struct Hinted(std::vec::IntoIter<(Key, Val)>, usize);
+                impl Iterator for Hinted {
+                    type Item = (Key, Val);
+                    fn next(&mut self) -> Option<(Key, Val)> {
+                        self.0.next()
+                    }
+                    fn size_hint(&self) -> (usize, Option<usize>) {
+                        (self.1, None)
+                    }
+                }
+                let cr = windowed(|| m.extend(Hinted(pairs.into_iter(), claimed)));
                 let r = self.refs[mid].as_mut().unwrap();
                 for (k, kid, v, vid) in ids {
                     match r.get_mut(&k) {
@@ -1523,6 +1537,17 @@ impl World {
                 all.extend_from_slice(&ok);
                 orc.push(format!("perm={}", keys_fmt(&all)));
                 let l_at_split = all.len();
+                // the call that starts a resize is a key-adding call like the others: it moves min(R, L) itself
+                if matches!(op, Op::Insert { .. }) && panic_kind.is_none() && lost_keys.is_empty() && ok.len() + l_at_split.min(self.r) != l_at_split {
+                    self.fail(&["C03"], format!("the insert that started a resize of {l_at_split} elements left {} of them in the old table", ok.len()));
+                }
+                if let Op::Entry { steps, .. } = op {
+                    let ins = steps.iter().filter(|s| matches!(s, Step::Insert(..) | Step::OrInsert(..) | Step::VacInsert(..))).count();
+                    let erases = steps.iter().any(|s| matches!(s, Step::AndReplace(false, _) | Step::OccReplaceWith(false, _) | Step::OccRemove | Step::OccRemoveEntry));
+                    if ins == 1 && !erases && panic_kind.is_none() && ok.len() + l_at_split.min(self.r) != l_at_split {
+                        self.fail(&["C03"], format!("the entry insertion that started a resize of {l_at_split} elements left {} of them in the old table", ok.len()));
+                    }
+                }
                 self.split_track[mid] = Some((l_at_split, if key_adding { 1 } else { 0 }));
             } else if key_adding {
                 if let Some((_, n)) = self.split_track[mid].as_mut() {
@@ -1699,6 +1724,10 @@ impl World {
             }
             if let Some((l, n)) = self.split_track[mid] {
                 if po.old.is_none() {
+                    // finished: the growing call counts as the first of the ceil(L/R)
+                    if n > (l + self.r - 1) / self.r && n > 0 && key_adding {
+                        self.fail(&["C03"], format!("a resize that parked {l} elements took {n} key-adding calls, more than ceil(L/R)"));
+                    }
                     self.split_track[mid] = None;
                 } else if n > (l + self.r - 1) / self.r && n > 0 {
                     self.fail(&["C03"], format!("resize that left {l} elements still pending after {n} key-adding calls"));
@@ -1723,7 +1752,12 @@ impl World {
                 if let (Some(p), Some(po_old)) = (&pre, po.old) {
                     if let Some((l0, ..)) = p.old {
                         let expect = l0 - l0.min(self.r);
-                        if po_old.0 != expect && !(matches!(op, Op::Entry { .. })) {
+                        // (a chain that also erases, or inserts twice, moves other amounts)
+                        let plain_chain = match op {
+                            Op::Entry { steps, .. } => n_ins == 1 && !steps.iter().any(|s| matches!(s, Step::AndReplace(false, _) | Step::OccReplaceWith(false, _) | Step::OccRemove | Step::OccRemoveEntry)),
+                            _ => true,
+                        };
+                        if po_old.0 != expect && plain_chain {
                             self.fail(&["C03"], format!("key-adding call left {} in the old table, expected {}", po_old.0, expect));
                         }
                     }
